@@ -41,14 +41,77 @@ import (
 //go:embed known_funcs.txt
 var knownFuncsTxt string
 
+// knownBags: key -> multiset of the names called / selected in the body (comma separated, sorted)
+var knownBags = map[string]string{}
+
+// funcBag: the multiset of identifiers a body calls or selects — a cheap fingerprint that survives renaming the
+// function, changing its receiver into a parameter, reordering parameters or renaming locals.
+func funcBag(fd *ast.FuncDecl) string {
+	if fd.Body == nil {
+		return ""
+	}
+	var names []string
+	ast.Inspect(fd.Body, func(n ast.Node) bool {
+		switch x := n.(type) {
+		case *ast.SelectorExpr:
+			names = append(names, x.Sel.Name)
+		case *ast.CallExpr:
+			if id, ok := x.Fun.(*ast.Ident); ok {
+				names = append(names, id.Name)
+			}
+		}
+		return true
+	})
+	sort.Strings(names)
+	return strings.Join(names, ",")
+}
+
+func bagSimilarity(a, b string) float64 {
+	if a == "" || b == "" {
+		return 0
+	}
+	ca, cb := map[string]int{}, map[string]int{}
+	for _, x := range strings.Split(a, ",") {
+		ca[x]++
+	}
+	for _, x := range strings.Split(b, ",") {
+		cb[x]++
+	}
+	inter, union := 0, 0
+	for k, v := range ca {
+		w := cb[k]
+		if w < v {
+			inter += w
+			union += v
+		} else {
+			inter += v
+			union += w
+		}
+	}
+	for k, w := range cb {
+		if _, ok := ca[k]; !ok {
+			union += w
+		}
+	}
+	if union == 0 {
+		return 0
+	}
+	return float64(inter) / float64(union)
+}
+
 // knownFuncs: key -> signature ("(T1,T2)(R1)") as printed from the syntax
 var knownSigs = func() map[string]string {
 	m := map[string]string{}
 	for _, l := range strings.Split(knownFuncsTxt, "\n") {
 		l = strings.TrimSpace(l)
 		if l != "" && !strings.HasPrefix(l, "#") {
-			k, sig, _ := strings.Cut(l, "\t")
-			m[k] = sig
+			parts := strings.SplitN(l, "\t", 3)
+			if len(parts) >= 2 {
+				m[parts[0]] = parts[1]
+			}
+			if len(parts) == 3 {
+				knownBags[parts[0]] = parts[2]
+			}
 		}
 	}
 	return m
@@ -102,7 +165,13 @@ func funcSig(fd *ast.FuncDecl) string {
 // renamedFuncs: "<dir>:<recv>.<newName>" -> old name, for every function of the confirmed tree that is gone while
 // exactly one new function with the same receiver type and the same signature appeared in the same directory — a
 // rename. The rules keep addressing it by its confirmed name (see typeFuncName); it is not a new helper.
-var renamedFuncs = map[string]string{}
+type oldName struct {
+	recv string // receiver type name ("" for a plain function)
+	ptr  bool
+	name string
+}
+
+var renamedFuncs = map[string]oldName{}
 
 func detectRenames(repo string) []string {
 	cur, err := dumpKnownFuncs(repo)
@@ -110,9 +179,13 @@ func detectRenames(repo string) []string {
 		return nil
 	}
 	curSig := map[string]string{}
+	curBag := map[string]string{}
 	for _, l := range cur {
-		k, sig, _ := strings.Cut(l, "\t")
-		curSig[k] = sig
+		parts := strings.SplitN(l, "\t", 3)
+		curSig[parts[0]] = parts[1]
+		if len(parts) == 3 {
+			curBag[parts[0]] = parts[2]
+		}
 	}
 	split := func(k string) (dir, recv, name string) {
 		i := strings.Index(k, ":")
@@ -122,6 +195,7 @@ func detectRenames(repo string) []string {
 	}
 	var log []string
 	used := map[string]bool{}
+	matched := map[string]bool{}
 	var missing []string
 	for k := range knownSigs {
 		if _, ok := curSig[k]; !ok {
@@ -143,9 +217,40 @@ func detectRenames(repo string) []string {
 		}
 		if len(cands) == 1 {
 			used[cands[0]] = true
-			renamedFuncs[cands[0]] = mn
+			renamedFuncs[cands[0]] = oldName{mr, strings.HasPrefix(knownSigs[m], "*"), mn}
 			_, _, nn := split(cands[0])
 			log = append(log, fmt.Sprintf("function %s is taken for the renamed %s (same receiver and signature, the old name is gone); rules address it by its confirmed name", nn, m))
+			matched[m] = true
+		}
+	}
+	// second pass: a confirmed function that is gone and whose BODY lives on in exactly one new function of the same
+	// directory (method turned into a function, parameters added or reordered, renamed at the same time)
+	for _, m := range missing {
+		if matched[m] || len(strings.Split(knownBags[m], ",")) < 5 {
+			continue
+		}
+		md, mr, mn := split(m)
+		best, second, bestK := 0.0, 0.0, ""
+		for k := range curSig {
+			if knownFuncs[k] || used[k] {
+				continue
+			}
+			d, _, _ := split(k)
+			if d != md {
+				continue
+			}
+			sim := bagSimilarity(knownBags[m], curBag[k])
+			if sim > best {
+				best, second, bestK = sim, best, k
+			} else if sim > second {
+				second = sim
+			}
+		}
+		if bestK != "" && best >= 0.75 && best-second >= 0.15 {
+			used[bestK] = true
+			renamedFuncs[bestK] = oldName{mr, strings.HasPrefix(knownSigs[m], "*"), mn}
+			_, _, nn := split(bestK)
+			log = append(log, fmt.Sprintf("function %s is taken for the reshaped %s (its body matches %.0f%%, the old function is gone); rules address it by its confirmed name", nn, m, best*100))
 		}
 	}
 	return log
@@ -203,7 +308,7 @@ func dumpKnownFuncs(repo string) ([]string, error) {
 		rel, _ := filepath.Rel(repo, filepath.Dir(path))
 		for _, d := range f.Decls {
 			if fd, ok := d.(*ast.FuncDecl); ok {
-				out = append(out, funcKey(rel, fd)+"\t"+funcSig(fd))
+				out = append(out, funcKey(rel, fd)+"\t"+funcSig(fd)+"\t"+funcBag(fd))
 			}
 		}
 		return nil
@@ -577,6 +682,56 @@ func (pi *preInliner) inlineInFile(pkg *packages.Package, f *ast.File, helpers m
 		}
 		return nil, nil
 	}
+	// a new helper without parameters and results that is used as a VALUE (b.start.Do(b.runOnce), time.AfterFunc(d,
+	// h), `go`/`defer` of a method value) is first turned into the closure form `func() { x.h() }`, whose call is
+	// then substituted like any other
+	astutil.Apply(f, func(cur *astutil.Cursor) bool {
+		var id *ast.Ident
+		switch e := cur.Node().(type) {
+		case *ast.SelectorExpr:
+			id = e.Sel
+		case *ast.Ident:
+			if _, isSel := cur.Parent().(*ast.SelectorExpr); isSel {
+				return true
+			}
+			id = e
+		default:
+			return true
+		}
+		fn, ok := info.Uses[id].(*types.Func)
+		if !ok || helpers[fn] == nil || waits[fn] || helpers[fn].uses < 0 {
+			return true
+		}
+		if call, isCall := cur.Parent().(*ast.CallExpr); isCall && call.Fun == cur.Node() {
+			return true // an ordinary call
+		}
+		sig := fn.Type().(*types.Signature)
+		if sig.Params().Len() != 0 || sig.Results().Len() != 0 {
+			return true
+		}
+		if sel, isSel := cur.Node().(*ast.SelectorExpr); isSel {
+			if s := info.Selections[sel]; s == nil || s.Kind() != types.MethodVal || len(s.Index()) != 1 {
+				return true
+			}
+			// the receiver expression must be free of calls (it is evaluated later in the closure form)
+			pure := true
+			ast.Inspect(sel.X, func(n ast.Node) bool {
+				if _, isC := n.(*ast.CallExpr); isC {
+					pure = false
+				}
+				return true
+			})
+			if !pure {
+				return true
+			}
+		}
+		inner := &ast.CallExpr{Fun: cur.Node().(ast.Expr)}
+		lit := &ast.FuncLit{Type: &ast.FuncType{Params: &ast.FieldList{}}, Body: &ast.BlockStmt{List: []ast.Stmt{&ast.ExprStmt{X: inner}}}}
+		cur.Replace(lit)
+		changed[f] = true
+		pi.logf("value use of helper %s at %s rewritten as func() { … }", helpers[fn].key, pkg.Fset.Position(id.Pos()))
+		return false
+	}, nil)
 	astutil.Apply(f, nil, func(cur *astutil.Cursor) bool {
 		stmt, ok := cur.Node().(ast.Stmt)
 		if !ok || cur.Index() < 0 {
